@@ -188,7 +188,7 @@ func optionFor(name string) (url.ParserOption, bool) {
 // buildParser builds the parser for a configuration.  "canon" forces canonicalizer.New;
 // a "profile:X" entry selects a predefined profile (other entries are then ignored).
 func buildParser(config []string) url.Parser {
-	var opts []url.ParserOption
+	var opts, canonOpts, plainOpts []url.ParserOption
 	canon := false
 	numeric, shuffled := false, false
 	for _, name := range config {
@@ -248,9 +248,36 @@ func buildParser(config []string) url.Parser {
 		o, isCanon := optionFor(name)
 		opts = append(opts, o)
 		canon = canon || isCanon
+		if isCanon {
+			canonOpts = append(canonOpts, o)
+		} else {
+			plainOpts = append(plainOpts, o)
+		}
+	}
+	// For every other configuration (by the hash of its names) the caller's option slice is used
+	// twice and the parser built from the REUSED slice is the one that is judged: a constructor
+	// must leave the slice it is handed as it found it (a caller that keeps a base list of
+	// options and builds several parsers from it is ordinary use).
+	h := uint32(2166136261)
+	for _, name := range config {
+		for i := 0; i < len(name); i++ {
+			h = (h ^ uint32(name[i])) * 16777619
+		}
+	}
+	reuse := len(opts) > 1 && h&1 == 1
+	if reuse && h&2 == 2 {
+		// the canonicalizer's options first, the parser's after them (they configure disjoint things; the
+		// relative order within each group, which decides between two entries of the same key, is kept)
+		opts = append(append(make([]url.ParserOption, 0, len(opts)+3), canonOpts...), plainOpts...)
 	}
 	if canon {
+		if reuse {
+			_ = canonicalizer.New(opts...)
+		}
 		return canonicalizer.New(opts...)
+	}
+	if reuse {
+		_ = url.NewParser(opts...)
 	}
 	return url.NewParser(opts...)
 }
